@@ -40,6 +40,9 @@ def scripted_programs(bpc):
         [["open", "a", "/A.BIN", "w"], ["write", "a", "61" * bpc], ["hclose", "a"], ["open", "b", "/B.BIN", "w"], ["write", "b", "62" * bpc], ["hclose", "b"],
          ["open", "c", "/C.BIN", "w"], ["write", "c", "63" * bpc], ["hclose", "c"], ["remove", "/B.BIN"], ["open", "a2", "/A.BIN", "a"],
          ["write", "a2", "64" * (2 * bpc)], ["hclose", "a2"], ["open", "r", "/C.BIN", "r"], ["read", "r", -1], ["hclose", "r"], ["open", "r2", "/A.BIN", "r"], ["read", "r2", -1], ["hclose", "r2"]],
+        # position at EOF on a cluster boundary; grow, then truncate back to the position; write (D31)
+        [["open", "t", "/T.BIN", "w"], ["write", "t", "54" * bpc], ["seek", "t", 0, 2], ["truncate", "t", 2 * bpc + 1], ["truncate", "t", bpc],
+         ["write", "t", "55" * 20], ["hclose", "t"], ["getsize", "/T.BIN"], ["open", "u", "/T.BIN", "r"], ["read", "u", -1], ["hclose", "u"]],
     ]
 
 
